@@ -58,3 +58,16 @@ prop("C01", "exploration", (1500, 40000),
           "entropy source, sends the proof through the byte channel and verifies it; the carried public inputs are compared with an independent reference evaluator "
           "(u128 Goldilocks, schoolbook extension, textbook Poseidon). It is also the fault-free configuration against which the fault-injecting checks are calibrated.",
      note="Sampling over programs/configurations; the reference evaluator reads only constant tables from the library. Completeness failures of probability ~2^-50 by design are not special-cased.")
+
+prop("C03", "fault_enumeration", (60, 900),
+     rule="one run = one accepted honest proof (seeded program x configuration with num_query_rounds*lde_bits >= 64 x schedule x entropy); a case = one message fault on it: "
+          "an element fault (+1, zero, random, neighbour's value) at an element position of the serialised proof tree (every cap entry word/byte, every opening, every query round's "
+          "leaves / siblings / coset evaluations, commit-phase caps, final polynomial, pow witness, public inputs; quick: first+last+2 random positions per component, thorough: "
+          "additionally every position of ~3% of the proofs), a list fault (drop last/first, empty, duplicate last, swap adjacent) on a list, the same on the compressed form "
+          "(query-position list exempt), or misdelivery with another circuit's verifier data. distinct = distinct hash of (proof scenario, fault); "
+          "non-trivial = the fault changed the decoded value and the result is still a value of the proof type",
+     technique="deterministic simulation: channel fault injection (element / list / misdelivery faults) on honest proofs between a simulated prover and the real verifier",
+     text="Fault enumeration over the message: every component of the proof (plain and compressed) receives element and list faults at first/last/random positions "
+          "(every position for a sample of small proofs in the thorough tier); each faulted copy must be rejected by verify / verify_compressed; the proof must also be rejected "
+          "under another circuit's verifier data.",
+     note="A fault on absorbed data is rejected only with overwhelming probability (<= 2^-64 by the generator's floor q*log2(N) >= 64); panics count as 'not accepted' here and are reported under C18.")
